@@ -16,6 +16,7 @@ import (
 	"os"
 	"path/filepath"
 	"sort"
+	"time"
 
 	"github.com/oasisprotocol/oasis-core/go/common/cbor"
 	"github.com/oasisprotocol/oasis-core/go/common/crypto/hash"
@@ -84,6 +85,15 @@ func sweepTargets(repo string) ([]sweepTarget, error) {
 		_, err := ias.UnsafeDecodeAVR(b)
 		return err == nil
 	}})
+	// the certificate chain that comes with a report (URL-encoded PEM, untrusted: parsed before any signature is checked)
+	if body, berr := os.ReadFile(filepath.Join(iasDir, "avr_v4_body_sw_hardening_needed.json")); berr == nil {
+		if sig, serr := os.ReadFile(filepath.Join(iasDir, "avr_v4_body_sw_hardening_needed.sig")); serr == nil {
+			ts = append(ts, sweepTarget{"ias.DecodeAVR(certificate chain)", readSeeds(iasDir, "avr_certificates_urlencoded.pem"), func(b []byte) bool {
+				_, err := ias.DecodeAVR(body, sig, b, ias.IntelTrustRoots, time.Now())
+				return err == nil
+			}})
+		}
+	}
 	// descriptors and commitments: valid encodings produced by a scenario network
 	dir, err := os.MkdirTemp("", "sweep-")
 	if err != nil {
